@@ -7,12 +7,14 @@ Obligation: no insert happens on a path on which a nested call of this node was 
 unfinished subtree is cached), for all cut points (they are free Booleans, not an enumeration), windows, flags, values.
 """
 import json
+import os
 import z3
 
 from mirsym.executor import State
 from mirsym import solve
 from mirsym import executor as X
 from mirsym.values import *
+from mirsym.models import opt_is_some
 from . import absgame as A
 from . import boardsym as B
 from . import searchstep as SS
@@ -22,26 +24,34 @@ LEVEL = 'other'
 MIN16, MAX16 = SS.MIN16, SS.MAX16
 
 
-def sym_limits():
-    """SearchLimits with every field an arbitrary Option"""
-    def opt(tag, w):
-        s = z3.Bool('lim_%s_some' % tag)
-        return Enum(z3.If(s, z3.BitVecVal(1, 64), z3.BitVecVal(0, 64)), {1: (z3.BitVec('lim_%s' % tag, w),), 0: ()})
-    return (opt('depth', 8), opt('nodes', 64), opt('movetime', 128), opt('wtime', 128), opt('btime', 128), opt('winc', 128),
-            opt('binc', 128), opt('timer', 128))
+sym_limits = SS.sym_limits
 
 
 def known_ids(run):
     return {e['id'] for e in run.load_known()}
 
 
+clock_seen, cut_kind = SS.clock_seen, SS.cut_kind
+
+
 def step(run, job):
-    kind, n = job
+    kind, n, contract_kind = job
     name = '%s/n%d' % (kind, n)
-    env = SS.StepEnv(run, n, {'AB': 'alpha_beta', 'R': 'root', 'Q': 'quiescence'}[kind], ply_concrete=(0 if kind == 'R' else None), abortable=True, limits=sym_limits())
+    env = SS.StepEnv(run, n, {'AB': 'alpha_beta', 'R': 'root', 'Q': 'quiescence'}[kind], ply_concrete=(0 if kind == 'R' else None), abortable=True, limits=sym_limits(),
+                     cut_contract=contract_kind)
     ex = env.ex
     st = State()
     sp = ex.alloc(st, env.search_value(st))
+    st.store[('G', 'own_cut')] = False
+
+    def saw_poll(positive):
+        def hook(ctx, val):
+            g = ctx.ex.load(ctx.st, ('G', 'own_cut'), ())
+            ctx.ex.store_to(ctx.st, ('G', 'own_cut'), (), b_or(g, val if positive else b_not(val)))
+            return val
+        return hook
+    ex.post_hook(r'^search::(Search|<impl at .*>)::limits_exceeded$', saw_poll(True))
+    ex.post_hook(r'^search::(Search|<impl at .*>)::is_running$', saw_poll(False))
     depth = z3.BitVec('depth', 8)
     # alpha_beta is also entered with depth 0 (it then drops into quiescence, whose cut is reported through the same ghost)
     ex.assume(z3.ULE(depth, 250) if kind == 'AB' else z3.And(z3.UGE(depth, 1), z3.ULE(depth, 250)))
@@ -91,6 +101,23 @@ def step(run, job):
                        note='after a cut below this node the table holds no entry written by it')
         if q.verdict == 'sat':
             report(run, q, name, 'after a nested search was cut short the table is left with an entry for the node')
+    # CUT-POST: this node's own cut establishes what the contract assumes of nested cuts (the induction hypothesis is closed)
+    posts = []
+    for s_ in finals:
+        S_ = ex.load(s_, sp.root, sp.path)
+        flag = zb(ex.load(s_, S_[0].root, S_[0].path)[1])
+        cut_any = z3.Or(zb(s_.store.get(('G', 'own_cut'), False)), zb(s_.store.get(('G', 'aborted_below'), False)))
+        ok = z3.Not(flag)
+        if contract_kind == 'weak':
+            ok = z3.Or(ok, clock_seen(run, S_, env.env.get('clock_reads', []), [z3.And(zb(c['guard']), c['by_clock']) for c in env.calls if 'by_clock' in c]))
+        posts.append(z3.And(zb(s_.guard), cut_any, z3.Not(ok)))
+    if posts:
+        q = run.decide('%s/cut-post' % name, ex.pre + [z3.Or(*posts)], kind='smt',
+                       note='a cut of this node leaves the running flag cleared%s: what the contract assumes of nested cuts' % (
+                           ' or a clock reading at/beyond the budget of a clocked search' if contract_kind == 'weak' else ''))
+        if q.verdict == 'sat':
+            report(run, q, name, 'a search that was cut short returns with the running flag still set%s: the callers cannot tell that the result is a dummy' % (
+                ' and without the clock having reached the time budget' if contract_kind == 'weak' else ''))
     for ob, qq in run.check_obligations(ex, name):
         report(run, qq, name, 'panic reachable when the search is cut: %s %s' % (ob.where.split('::')[-1], ob.msg[:80]))
     # vacuity: some insert is reachable at all, and some nested abort is possible
@@ -130,6 +157,11 @@ def check(run, replay=None):
     run.bounds.append('nodes with 1..%d pseudo-legal moves; any depth, window, ply; every combination of cut points (free Booleans per poll and per nested call); arbitrary limits' % N)
     run.outside += ['nodes with more moves',
                     'the effect of a bad entry on later searches (the property is about the write itself)']
-    run.stubs |= {'one-level abstract game', 'nested calls: window contract or abort (returns 0, sticky)', 'running flag may be cleared at any poll',
+    run.stubs |= {'one-level abstract game', 'nested calls: window contract or abort (returns 0; the cut guarantees what LIM-KIND establishes of limits_exceeded, no more)', 'running flag may be cleared at any poll',
                   'limits fully symbolic', 'clock free', 'cache probe returns None; inserts observed'}
-    run.parallel(step, jobs)
+    ck = cut_kind(run)
+    run.extra['cut_contract'] = ck
+    if ck is None:
+        run.inconclusive.append('LIM-KIND: a positive answer of limits_exceeded neither clears the running flag nor is a clock-budget cut; no sound contract for nested cuts')
+        return
+    run.parallel(step, [j + (ck,) for j in jobs])
